@@ -5,7 +5,7 @@
    [wf]: what the constructors of the library enforce (k >= 1, at least one candidate, k <= #candidates when distinct). *)
 From Coq Require Import Sorted.
 From PG Require Import Common.Tactics Model.Geno Proofs.GenoBasics Proofs.GenoValid Proofs.GenoSize
-  Proofs.GenoOrder Proofs.GenoNext Proofs.GenoIter Proofs.GenoRandom Proofs.GenoConcrete Proofs.GenoExact Proofs.GenoExamples.
+  Proofs.GenoOrder Proofs.GenoNext Proofs.GenoIter Proofs.GenoRandom Proofs.GenoConcrete Proofs.GenoExact Proofs.GenoCmp Proofs.GenoExamples.
 
 (* the set that is enumerated is precisely the set of decisions satisfying the constraints *)
 Theorem C11_valid_iff : forall s d, finite s = true -> (valid s d = true <-> In d (all_valid s)).
@@ -101,3 +101,15 @@ Theorem C11_bind_agrees_refuted :
   (exists b, bind q_float s d = Some b) /\ ~ (exists sd, valid s sd = true /\ normalize sd = d) /\ bind q_none s d = None.
 Proof. exact bind_quirk_refuted. Qed.
 Print Assumptions C11_bind_agrees_refuted.
+
+(* DNA.__cmp__ on the DNAs of two valid decisions never raises and is the order of decisions *)
+Theorem C11_order_agrees : forall s a b, wf s = true -> valid s a = true -> valid s b = true ->
+  dna_cmp (normalize a) (normalize b) = Some (scmp a b).
+Proof. exact order_agrees. Qed.
+Print Assumptions C11_order_agrees.
+
+(* hence the DNAs are yielded in strictly increasing order under DNA.__lt__ *)
+Theorem C11_sorted_dna : forall s, finite s = true -> wf s = true ->
+  StronglySorted dna_lt (map normalize (all_valid s)).
+Proof. exact all_valid_sorted_concrete. Qed.
+Print Assumptions C11_sorted_dna.
